@@ -72,6 +72,31 @@ def tie_class(values):
 
 
 # -------------------------------------------------------------------------------------------------
+def same_up_to_drift(r1, r2, rel=1e-9):
+    """two utility rankings of the same alternatives whose values differ by float drift only (a bias that sums over the alternatives
+    adds in listing order): every value within `rel`, and - unless two values of one ranking are that close to each other, in which case
+    the drift may legitimately move a tie - the same order and links"""
+    try:
+        d1 = {e['alternative']['id']: e for e in r1}
+        d2 = {e['alternative']['id']: e for e in r2}
+        if set(d1) != set(d2) or len(d1) != len(r1) or len(d2) != len(r2):
+            return False
+        close = lambda a, b: a == b or abs(a - b) <= rel * (abs(a) + abs(b)) + 1e-12
+        for i in d1:
+            if not close(d1[i]['evaluation']['value'], d2[i]['evaluation']['value']):
+                return False
+        vals = sorted(e['evaluation']['value'] for e in r1)
+        near_tie = any(a != b and close(a, b) for a, b in zip(vals, vals[1:])) or \
+            any(d1[i]['evaluation']['value'] != d2[i]['evaluation']['value'] and
+                any(j != i and close(d1[i]['evaluation']['value'], d1[j]['evaluation']['value']) for j in d1) for i in d1)
+        if near_tie:
+            return True
+        return [e['alternative']['id'] for e in r1] == [e['alternative']['id'] for e in r2] and \
+            all(sorted(d1[i]['betterThanOrSameAs']) == sorted(d2[i]['betterThanOrSameAs']) for i in d1)
+    except (KeyError, TypeError):
+        return False
+
+
 @check('C04')
 def c04(ctx):
     ctx.check_proofs()
@@ -143,7 +168,7 @@ def c04(ctx):
             pr = gen.permuted(rnd, req)
             r2 = ctx.pipe.call({'op': 'decide', 'req': pr})
             ctx.count('e2e/permuted')
-            if not r2.get('ok') or r2['resp']['result'] != result:
+            if not r2.get('ok') or (r2['resp']['result'] != result and not (req.get('biases') and same_up_to_drift(result, r2['resp']['result']))):
                 ctx.violation('listing the alternatives in another order changes the result',
                               {'request': req, 'permuted': pr, 'result': result, 'permuted_result': r2},
                               {'method': req['preferenceFunction']})
@@ -453,7 +478,8 @@ def c05_cred(ctx, reqs, ress):
 def c05(ctx):
     ctx.before_finish = c05_matrices
     return method_check(
-        ctx, 'C05', [(3, gen_method('electreIII')), (1, (lambda rnd: gen.biased_request(rnd, method='electreIII', prob_mix=False))), (2, veto_grid)], 300, 6000,
+        ctx, 'C05', [(3, gen_method('electreIII')), (1, (lambda rnd: gen.biased_request(rnd, method='electreIII', prob_mix=False))), (2, veto_grid),
+                     (0.25, lambda rnd: gen.large_request(rnd, 'electreIII', lo=13, hi=23))], 300, 6000,
         'random electreIII requests: gain and cost criteria, every presence pattern of q<p<v, ties on criteria and identical '
         'alternatives, default and custom distillation functions; plus raw credibility matrices over {0, 1/4, .., 1} of size 2-6 through the '
         'exported RankAscending / RankDescending (ex-aequo best sets needing inner distillations, classes removed from the middle); '
@@ -514,6 +540,15 @@ def collect_stages(ctx, reqs):
         ress.append(res)
         for t, i in e2e.stage_terms(ctx.pipe, r, res):
             if t is None:
+                pr = i['stage'].get('props')
+                prf = i['stage'].get('propsFinal')
+                bad = [x for x in (pr, prf) if isinstance(x, dict) and '__marshalError' in x]
+                if bad:
+                    # what the bias reports holds a number JSON cannot carry (NaN / Inf): the response of the service cannot be produced
+                    ctx.violation('the report of %s holds a value that is not a number (%s)' % (i['bias'].get('name'), bad[0]['__marshalError']),
+                                  {'request': r, 'bias': i['bias'], 'after': i['stage'].get('curAfter')},
+                                  {'method': r.get('preferenceFunction'), 'bias': i['bias'].get('name')})
+                    continue
                 ctx.violation('a traced stage could not be turned into a model term (unexpected shape): %s' % i['error'],
                               {'broken': 'emitter', 'request': r, 'stage': i['stage']}, found_input=False)
                 continue
@@ -676,12 +711,60 @@ def c17(ctx):
         'sizes, bias sequence)', './check C17')
 
 
+def c18_names(ctx):
+    """an id not used before: the name generator itself on sets of ids with numbered variants of the base name, gaps and runs"""
+    if 'names' in core.COMP_SKIPPED or ctx.replay and 'name_case' not in ctx.replay:
+        if 'names' in core.COMP_SKIPPED:
+            ctx.notes.append('component overlay for the name generator no longer compiles; covered by the traced stages only')
+        return
+    rnd = ctx.rnd
+    cases = []
+    if ctx.replay:
+        cases = [ctx.replay['name_case']]
+    for _ in range(0 if ctx.replay else n_cases(ctx, 150, 3000)):
+        base = rnd.choice(['__concealedCriterion__', '__a+b__', '__anchoring_criterion_x', 'k'])
+        pool = [base] + [base + str(i) for i in range(1, 14)]
+        taken = [x for x in pool if rnd.random() < rnd.choice([0.2, 0.5, 0.8])]
+        if rnd.random() < 0.3:   # a run of consecutive numbers right at the first guess
+            k = len(taken)
+            taken = list(dict.fromkeys(taken + [base + str(i) for i in range(max(1, k - 1), k + rnd.randint(1, 4))]))
+        others = rnd.sample(['c1', 'c2', 'price', base[:-1], base + 'x', '__' + base, 'k1x'], rnd.randint(0, 3))
+        ids = taken + others
+        rnd.shuffle(ids)
+        cases.append({'ids': ids, 'name': base})
+    terms, keep = [], []
+    for c in cases:
+        res = ctx.pipe.call({'op': 'not_used_name', 'args': c})
+        if not res.get('ok') or not (res.get('result') or {}).get('ok'):
+            ctx.violation('harness: not_used_name op failed', {'broken': 'component overlay', 'answer': res}, found_input=False)
+            return
+        got = res['result']['name']
+        terms.append('(mkNC %s %s %s)' % (emit.clist(emit.cstr(i) for i in c['ids']), emit.cstr(c['name']), emit.cstr(got)))
+        keep.append((c, got))
+        ctx.evaluations += 1
+        ctx.count('names/taken=%d' % len([i for i in c['ids'] if i.startswith(c['name'])]))
+    verd, logs = core.run_cases('C18n', 'judge_name', terms, shard=400)
+    bad = []
+    for (c, got), v in zip(keep, verd):
+        if v == [99]:
+            ctx.violation('case file did not evaluate', {'broken': 'Run/cases_C18n', 'log': logs[:1]}, found_input=False)
+            return
+        if v[1] != 0:
+            ctx.violation('the id generated for a new criterion is already in use', {'name_case': c, 'generated': got}, {'component': 'names'})
+        elif v[0] != 0:
+            bad.append((c, got))
+    if bad and not any(x[2] for x in ctx.violations):
+        ctx.violation('correspondence of the name generator broken on %d of %d cases; every generated id is unused' % (len(bad), len(keep)),
+                      {'broken': 'correspondence not_used_name', 'name_case': bad[0][0], 'generated': bad[0][1]}, found_input=False)
+
+
 @check('C18')
 def c18(ctx):
     stage_check(ctx, 'C18', ['criteriaConcealment', 'criteriaMixing'],
                 [(1, seq_with('criteriaConcealment')), (1, seq_with('criteriaMixing'))], 240, 4000, '',
                 agree_names=['criteriaConcealment', 'criteriaMixing'],
                 search_gens=[(1, seq_with('criteriaConcealment')), (1, seq_with('criteriaMixing'))])
+    c18_names(ctx)
     return ctx.finish(
         'traced applications of criteriaConcealment / criteriaMixing inside random bias sequences over all methods: three reference '
         'strategies, scaling in {-1, 0.5, 1, 3}, mixing ratios 0, 0.5, 1, bounding options, 1..5 criteria, repeated application; '
@@ -737,8 +820,31 @@ def c07(ctx):
             for c in req['criteria']:
                 c.pop('valuesRange', None)
         return req
-    infos, verd, reqs, ress = stage_check(ctx, None, None, gens + [(1, adders_then)], 400, 8000, '', extra=c07_extra,
+    def add_omit_add(rnd):
+        """a criterion is added, omitted again (it is the weakest: importance 0, one criterion omitted), and the same bias adds one once more:
+        the criteria list after the omission equals the original one"""
+        first = rnd.choice(['criteriaConcealment', 'criteriaConcealment', 'criteriaMixing'])
+        req = gen.biased_request(rnd, method=rnd.choice(gen.METHODS + ['choquetIntegral', 'choquetIntegral']),
+                                 names=[first, 'criteriaOmission', first], prob_mix=False)
+        for b in (req['biases'][0], req['biases'][2]):
+            b['props']['referenceCriterionType'] = 'importanceRatio'
+            b['props']['newCriterionImportance'] = 0.0
+        req['biases'][1]['props'] = {'ratio': 0.0, 'min': 1, 'max': 1, 'ordering': 'weakest'}
+        return req
+    infos, verd, reqs, ress = stage_check(ctx, None, None, gens + [(1, adders_then), (0.5, add_omit_add)], 400, 8000, '', extra=c07_extra,
                                           search_gens=[(1, adders_then)])
+    # the same combination once more in the same process: still a ranking (Choquet with a criterion-adding bias over-weighted)
+    again = [(q, r) for q, r in zip(reqs, ress) if r.get('ok') and e2e.enabled_biases(q)]
+    again.sort(key=lambda qr: 0 if (qr[0].get('preferenceFunction') == 'choquetIntegral'
+                                    and any(b.get('name') in ('criteriaConcealment', 'criteriaMixing', 'anchoring') for b in e2e.enabled_biases(qr[0]))) else 1)
+    for q, r in (again[:n_cases(ctx, 60, 800)] if not ctx.replay else again):
+        r2 = ctx.pipe.call({'op': 'decide', 'req': q})
+        ctx.count('repeated-in-process')
+        if not r2.get('ok'):
+            ctx.violation('a combination answered with a ranking is answered with an error when the same request is served again: %s'
+                          % str(r2.get('err'))[:200], {'request': q, 'first': r.get('resp'), 'again': r2.get('err')},
+                          {'method': q.get('preferenceFunction')})
+            break
     # a valid request with valid biases must end in a ranking
     for req, res in zip(reqs, ress):
         if not res.get('ok') and res.get('kind') == 'panic':
@@ -763,7 +869,7 @@ def c06(ctx):
         alts = req['knownAlternatives']
         a, b = rnd.sample(range(len(alts)), 2)
         for c in req['criteria']:
-            sg = -1 if c['type'] == 'cost' else 1
+            sg = -1 if c.get('type') == 'cost' else 1
             delta = rnd.choice([0, 0, 0.25, 0.5, 1.0, 2.0])
             alts[b]['criteria'][c['id']] = alts[a]['criteria'][c['id']] - sg * delta
         return req
@@ -782,7 +888,7 @@ def c06(ctx):
                 a['criteria'][c['id']] = float(rnd.randint(0, 9))
         i, j = rnd.sample(range(len(alts)), 2)
         for c in req['criteria']:
-            sg = -1 if c['type'] == 'cost' else 1
+            sg = -1 if c.get('type') == 'cost' else 1
             alts[j]['criteria'][c['id']] = alts[i]['criteria'][c['id']] - sg * rnd.choice([0, 1, 1, 2])
         req['methodParameters'].pop('electreDistillation', None)
         return req
@@ -815,7 +921,19 @@ def c06(ctx):
                                    {'request': req, 'scaled': sr, 'result': base.get('resp'), 'scaled_result': r3.get('resp') or r3.get('err')},
                                    {'method': 'electreIII'})
     ctx.before_finish = meta
-    return method_check(ctx, 'C06', [(2, dominated), (2, veto_heavy), (1, gen_method('electreIII'))], 300, 6000,
+    def large_dominated(rnd):
+        """13-23 alternatives (sizes on both sides of every small threshold, not only multiples of 4) with one alternative dominating all others,
+        listed at a random position"""
+        req = gen.large_request(rnd, 'electreIII', lo=13, hi=23)
+        alts = req['knownAlternatives']
+        top = rnd.randrange(len(alts))
+        for c in req['criteria']:
+            vals = [a['criteria'][c['id']] for a in alts]
+            alts[top]['criteria'][c['id']] = (min(vals) - 1.0) if c.get('type') == 'cost' else (max(vals) + 1.0)
+        if alts[top]['id'] not in req['choseToMake']:
+            req['choseToMake'].append(alts[top]['id'])
+        return req
+    return method_check(ctx, 'C06', [(2, dominated), (2, veto_heavy), (1, gen_method('electreIII')), (0.3, large_dominated)], 300, 6000,
                         'electreIII requests with a planted dominated/dominating pair (ties on some criteria) inside 1-4 further '
                         'alternatives, plus random requests; every dominating and identical pair of each response is checked; '
                         'metamorphic groups: two listing-order permutations and weights x 2^m (m = -3, 1, 10, -30, 30) per request; when the correspondence '
@@ -1042,6 +1160,8 @@ def c14(ctx):
     cases = []
     if ctx.replay and 'levels_case' in ctx.replay:
         cases = [ctx.replay['levels_case']]
+    elif ctx.replay and 'request' in ctx.replay:
+        cases = []
     else:
         for _ in range(n_cases(ctx, 300, 8000)):
             inc = rnd.random() < 0.5
@@ -1109,10 +1229,31 @@ def c14(ctx):
         c, r, v = broken[0]
         ctx.violation('correspondence Model.Levels vs satisfaction-levels broken on %d of %d cases (code %s); checker still satisfied'
                       % (len(broken), len(keep), v[0]), {'broken': 'correspondence levels', 'levels_case': c, 'result': r}, found_input=False)
+    # the two heuristics end to end with GENERATED levels: the thresholds they report must be the levels of the documented series for the
+    # criterion they name (criteria listed in an order that differs from their weight order, different ranges and types per criterion)
+    if not ctx.replay or 'request' in ctx.replay:
+        def gen_levels(rnd):
+            m = rnd.choice(['aspectEliminationHeuristic', 'satisfactionHeuristic'])
+            req = gen.heuristic_request(rnd, m, n_crits=rnd.choice([2, 3, 3, 4]), distinct_weights=True)
+            fn, p = gen.level_params(rnd, req['criteria'], req['knownAlternatives'], increasing=(m == 'aspectEliminationHeuristic'), explicit_prob=0.0)
+            req['methodParameters']['function'], req['methodParameters']['params'] = fn, p
+            return req
+        hreqs = [ctx.replay['request']] if ctx.replay else [gen_levels(rnd) for _ in range(n_cases(ctx, 120, 2500))]
+        hres, hverd, hlogs = e2e.run_all(ctx.pipe, hreqs, 'C14h')
+        for req, res, v in zip(hreqs, hres, hverd):
+            ctx.evaluations += 1
+            ctx.count('heuristic/' + req['preferenceFunction'])
+            col = COL['C12'] if req['preferenceFunction'] == 'aspectEliminationHeuristic' else COL['C13']
+            if v and len(v) > col and v[col] != 0:
+                ctx.violation('the thresholds a heuristic reports are not the levels of the documented series for the criteria it names',
+                              {'request': req, 'response': res.get('resp') or res.get('err'), 'checker': 'Check/C12.v / Check/C13.v on generated levels'},
+                              {'method': req['preferenceFunction']})
+                break
     return ctx.finish(
         'level sources called directly (Find + Initialize + Next as wired in main.go): both families, both update rules and explicit '
         'thresholds, dyadic parameters landing exactly on bounds, min >= max, degenerate and negative ranges, cost criteria, one '
-        'documented constraint violated in 12% of cases; distinct = (family, function, number of levels, criteria, verdict)',
+        'documented constraint violated in 12% of cases; every series generated twice from the same data; plus aspect elimination and '
+        'satisfaction end to end with generated levels (reported thresholds = levels of the series); distinct = (family, function, number of levels, criteria, verdict)',
         './check C14')
 
 
@@ -1303,6 +1444,9 @@ def history_runs(ctx, nh, modes=('shared', 'fresh'), allc=None, cur_in=None):
 
 
 def c09_extra(ctx, req, res, info, v, facts):
+    if len(v) > SCOL['faithful'] and v[SCOL['faithful']] != 0:
+        ctx.violation('what the bias %s reports about the data it produced is not what the next stage received' % info['bias'].get('name'),
+                      {'request': req, 'bias': info['bias'], 'handed_on': info['stage'].get('curAfter'), 'report': info['stage'].get('props')}, facts)
     if v[SCOL['C09later']] != 0:
         ctx.violation('what the bias %s handed on / reported was altered by a later stage' % info['bias'].get('name'),
                       {'request': req, 'bias': info['bias'], 'after_at_return': info['stage'].get('curAfter'),
